@@ -54,7 +54,7 @@ FORMS = {
 
 
 def make_trace(directed, removal, calls, labeling="int", forks=None, fork_at=None, rng=None, known=None, grid=None,
-               ret_obj=False):
+               ret_obj=False, observe_every=True):
     """Apply `calls` to a fresh graph, one observed line per call.
 
     forks: calls applied (each on its own deep copy) to the final state, or to
@@ -72,8 +72,12 @@ def make_trace(directed, removal, calls, labeling="int", forks=None, fork_at=Non
         form = rng.choice(FORMS[c["op"]])
         res = core.apply_call(g, L, c, form)
         line = dict(c)
-        line.update(fork=False, res=res, form=form, obs=core.observe(g, L, known, grid))
+        line.update(fork=False, res=res, form=form)
+        if observe_every:
+            line["obs"] = core.observe(g, L, known, grid)
         lines.append(line)
+    if not observe_every:
+        lines.append({"op": "observe", "fork": False, "res": "ok", "obs": core.observe(g, L, known, grid)})
     for c in forks or ():
         h = copy.deepcopy(g)
         form = rng.choice(FORMS[c["op"]])
